@@ -165,6 +165,32 @@ def lazy_phases(prog, rep):
     return n
 
 
+def regex_capture_lookup(prog, rep):
+    """`$n` beyond the groups of the executing arm is UndefinedRegexCapture in both modes (never a default value)"""
+    rep.rule("E3.r", "`$n`: current_regex_captures.get(match_index), a missing entry is UndefinedRegexCapture in strict and lazy mode alike (no defaulting adaptor)")
+    feats = {}
+    for nm in ("evaluate", "evaluate_lazy"):
+        fl = prog.find(self_ty="tsg::ast::RegexCapture", name=nm)
+        if len(fl) != 1:
+            rep.violation("E3.r", "anchor-lost:RegexCapture::%s" % nm, "", "not found")
+            continue
+        f = fl[0]
+        body, tr = f.body, Tracer(f.body)
+        gets = [(b, t) for b, t in body.calls() if is_callee(t, r"slice::<impl \[T\]>::get$|Vec::<T, A>::get$")]
+        errs = [st["rv"].get("variant") for g in [f] + prog.all_closures_under(f) for b in sorted(g.body.reachable()) for st in g.body.blocks[b]["stmts"]
+                if st["k"] == "assign" and st["rv"]["k"] == "aggregate" and st["rv"].get("adt") == "tsg::execution::error::ExecutionError"]
+        defaults = [t for b, t in body.calls() if is_callee(t, r"Option::<T>::(unwrap_or|unwrap_or_default|unwrap_or_else|map_or|map_or_else|unwrap|expect)$")]
+        ok = len(gets) == 1 and errs == ["UndefinedRegexCapture"] and not defaults
+        if ok:
+            a = [canon(strip(tr.operand(x))) for x in gets[0][1]["args"]]
+            ok = a[0].endswith("arg:exec.current_regex_captures") and a[1].endswith("arg:self.match_index")
+            feats[nm] = (a[0].lstrip("*"), a[1].lstrip("*"), tuple(errs))
+        rep.check(ok, "E3.r", "%s :: lookup" % f.id, f.loc(), "get(match_index) or UndefinedRegexCapture",
+                  "`$n` is not looked up as current_regex_captures.get(match_index) with UndefinedRegexCapture for a missing group (errors built: %s, defaulting adaptors: %d)" % (errs, len(defaults)))
+    if len(feats) == 2:
+        rep.check(feats["evaluate"] == feats["evaluate_lazy"], "E3.r", "strict=lazy :: $n lookup", "", "same lookup in both modes", "strict %s vs lazy %s" % (feats["evaluate"], feats["evaluate_lazy"]))
+
+
 def run(prog, rep):
     n = siblings(prog, rep)
     rep.floor("E3.s", n, 12, "sibling implementations analysed")
@@ -175,6 +201,8 @@ def run(prog, rep):
     C08.lazy_routing(prog, rep)
     C04.memo_rule(prog, rep)
     C04.forcing_window(prog, rep)      # lazy-only failure (spurious recursion error) where strict succeeds
+    C04.strict_scoped_writes(prog, rep)  # strict-only success (a definition that lazy forcing reports as a duplicate)
+    regex_capture_lookup(prog, rep)
     # panic where the other mode has an error: no undischarged panic site in the lazy interpreter
     rep.rule("E1.a", e1_panic.RULES["E1.a"] + " (restricted to execution/lazy*: a panic where strict reports an error)")
     sites, per_rule, ctx = e1_panic.run_e1a(prog, rep, fn_filter=lambda f: f.file.startswith("src/execution/lazy"))
